@@ -7,8 +7,11 @@
    behaviour once and prints it at its end. *)
 EXTENDS Integers, Sequences, FiniteSets, Json, TLC
 
+CONSTANT NLayers     \* 2: enumerated exhaustively (model-checking mode); 3: sampled (simulation mode) - three files can form a CHAIN
+                     \* (the first overlaps the requested range, the second only the first, the third only the second)
 Keys == <<"k1", "k2", "k3">>
 N == Len(Keys)
+LVal(l) == <<"v1", "v2", "v3">>[l]
 VARIABLES phase,   \* "write" | "flushed2" | "compacted" | "retired" | "reopened" | "done"
           layer, idx,   \* while writing: which layer, which key comes next
           abs,     \* key -> value token or "NONE"
@@ -23,15 +26,15 @@ Init == phase = "write" /\ layer = 1 /\ idx = 1 /\ abs = [k \in {Keys[i] : i \in
 \* per key and layer: put a value (layer-specific, so versions can be told apart), delete, or skip
 WriteKey == /\ phase = "write" /\ idx <= N
             /\ LET k == Keys[idx]
-               IN \/ /\ abs' = [abs EXCEPT ![k] = IF layer = 1 THEN "v1" ELSE "v2"]
-                     /\ h' = Append(h, Rec("put", <<[k |-> k, v |-> IF layer = 1 THEN "v1" ELSE "v2"]>>))
+               IN \/ /\ abs' = [abs EXCEPT ![k] = LVal(layer)]
+                     /\ h' = Append(h, Rec("put", <<[k |-> k, v |-> LVal(layer)]>>))
                   \/ /\ abs' = [abs EXCEPT ![k] = "NONE"]
                      /\ h' = Append(h, Rec("delete", <<[k |-> k, v |-> "TOMB"]>>))
                   \/ UNCHANGED <<abs, h>>
             /\ idx' = idx + 1 /\ UNCHANGED <<phase, layer>>
 FlushLayer == /\ phase = "write" /\ idx = N + 1
               /\ UNCHANGED abs /\ h' = Append(h, Rec("flush", <<>>))        \* (abs' must be fixed before Rec reads it)
-              /\ IF layer = 1 THEN layer' = 2 /\ idx' = 1 /\ phase' = "write"
+              /\ IF layer < NLayers THEN layer' = layer + 1 /\ idx' = 1 /\ phase' = "write"
                  ELSE phase' = "flushed2" /\ UNCHANGED <<layer, idx>>
 CompactCall == /\ phase = "flushed2" /\ UNCHANGED abs
                /\ \/ h' = Append(h, Rec("compact", <<>>))
